@@ -70,6 +70,33 @@ theorem ldr_tagResp_ok (svc s toId seq : Nat) (ctx data : Bytes) (hc : ctx.lengt
   rw [hp]
   exact ⟨trivial, rfl, by simp [errorCip, Except.map]⟩
 
+/-- the service part of the parse leaves the encapsulation status alone -/
+theorem ldr_parseService_commandStatus (raw : Bytes) (off : Nat) (p : Reply.Parsed) :
+    (parseService raw off p).commandStatus = p.commandStatus := by
+  unfold parseService
+  split
+  · rfl
+  · split <;> rfl
+
+/-- (e) the encapsulation status the response class reads off ANY frame the target builds with status 0 (whatever
+    the command, the context and the body): 0 — what `_send_requests` looks at before it takes the embedded replies
+    of a Multiple Service Packet apart -/
+theorem ldr_tagResp_commandStatus (cmd s : Nat) (ctx body : Bytes) :
+    (tagResp (some (frame cmd s 0 ctx body))).p.commandStatus = some 0 := by
+  have hz : leBytes 4 0 = [0, 0, 0, 0] := rfl
+  have hraw1 : frame cmd s 0 ctx body = (le 2 cmd ++ le 2 body.length ++ le 4 s) ++
+      ([0, 0, 0, 0] ++ (ctx ++ le 4 0 ++ body)) := by
+    simp only [frame, encHeader, le, hz, List.append_assoc]
+  have b1 : Reply.slice (frame cmd s 0 ctx body) 8 12 = [0, 0, 0, 0] := by
+    rw [hraw1]
+    have := Cli.slice_at (le 2 cmd ++ le 2 body.length ++ le 4 s) ([0, 0, 0, 0] ++ (ctx ++ le 4 0 ++ body)) 8 0 4
+      (by simp [le, RT.leBytes_length])
+    simp only [Nat.add_zero] at this
+    rw [this]; simp [Reply.slice]
+  have b5 : decodeIntVal .dint [0, 0, 0, 0] = .ok (0, []) := rfl
+  unfold tagResp
+  simp only [Reply.parseCip, ldr_parseService_commandStatus, Reply.parseBase, b1, b5]
+
 /-! ### (e) `parse_read_reply` for an elementary scalar -/
 
 /-- the codec classes of the elementary types other than bit strings -/
